@@ -167,3 +167,41 @@ register(Contract(
     raises={'IndexError': May()},
     returns=Returns(wp_returns), modifies=set(), prop=['C07', 'C08']))
 C.unit('C07', 'constraints:wrap_pairs')
+
+
+# ------------------------------------------------------------------------------------- _pairs: value-level soundness (C07)
+# "every returned pair consists of two DISTINCT points with KNOWN labels, equal for positive pairs and different for negative pairs":
+# element invariant of the set `ab` (indices into the known-label subset), carried through np.array(list(ab)) / .T / known_label_idx[...]
+from .loops import list_invariant
+
+_PT = 'constraints:Constraints._pairs'
+
+
+def _ab_elem(v, comps):
+  a_, b_ = comps
+  kl = v.known_labels.term
+  nl = v.num_labels
+  rel = (TH.at1(kl, a_) == TH.at1(kl, b_)) if z3.is_true(v.same_label) else (TH.at1(kl, a_) != TH.at1(kl, b_))
+  return z3.And(a_ >= 0, a_ < nl, b_ >= 0, b_ < nl, rel, *([a_ != b_] if z3.is_true(v.same_label) else []))
+
+
+list_invariant(_PT, 0, 'it < max_iter and len(ab) < n_constraints', 'ab', 2)(_ab_elem)
+list_invariant(_PT, 1, 'random_state.randint(num_labels, size=nc)', 'ab', 2)(_ab_elem)
+
+_R = z3.Int('r!pair')
+
+
+def _pairs_sound(a, r):
+  """for a generic returned pair (i, j): both labels known, equal (same_label) resp. different, and i != j for positive pairs"""
+  if r.st.shape.rank != 2 or r.term is None:
+    return None if r.st.shape.rank != 2 else PatternMismatch('returned index array vs known_label_idx[ab.T]')
+  pl = a.self.partial_labels.term
+  n = a.self.partial_labels.dim(0)
+  i_, j_ = z3.ToInt(TH.at2(r.term, 0, _R)), z3.ToInt(TH.at2(r.term, 1, _R))
+  li, lj = TH.at1(pl, i_), TH.at1(pl, j_)
+  same = z3.is_true(a.same_label)
+  body = z3.And(i_ >= 0, i_ < n, j_ >= 0, j_ < n, li >= 0, lj >= 0, (li == lj) if same else (li != lj), *([i_ != j_] if same else []))
+  return z3.Implies(z3.And(_R >= 0, _R < r.dim(1)), body)
+
+
+REGISTRY[_PT].ensures['every-pair-joins-two-distinct-known-label-points-of-equal-resp-different-label'] = body_only(_pairs_sound)
